@@ -49,7 +49,7 @@ func writeEvidence(a *agg, base uint64, wall float64, reported, known, parallel,
 			"runs":                           a.runs,
 			"library_calls":                  a.calls,
 			"logical_steps_yields":           a.yields,
-			"simulated_time":                 "none: the library has no clock, timer or deadline (DESIGN.md §1); logical steps are statement-level yields",
+			"simulated_time":                 "the pinned library has no clock, timer or deadline (DESIGN.md §1): simulated_time_total_s only counts the clock jumps the harness injects between calls; if a changed tree reads a clock or arms timers they run on this simulated clock (DESIGN.md §4.9)",
 			"switches":                       a.switches,
 			"preemptions_fired":              a.preempts,
 			"distinct_interleavings":         len(a.sigs),
@@ -76,7 +76,11 @@ func writeEvidence(a *agg, base uint64, wall float64, reported, known, parallel,
 				"preemption-at-instrumented-statement": a.preempts, "task-switch": a.switches,
 				"cold-start (first calls in a fresh process)": a.probes["cold-start-runs"],
 				"once-contended": a.probes["two-tasks-inside-once-initialisation"], "shared-parameter-map": a.probes["map-object-shared-by-2-or-more-tasks"],
+				"simulated-clock-jump": a.clockJumps, "simulated-timer-fired": a.timersFired,
+				"library-goroutine-scheduled-during-a-call": a.probes["library-started-goroutine-ran-while-a-caller-was-inside-a-call"],
 			},
+			"simulated_time_total_s":   float64(a.simNanos) / 1e9,
+			"simulator_owned_constructs": sites.SimOwned,
 			"real_components":    []string{"pql", "pql/parser (statement-level yields inserted, sync calls via shims that invoke the real primitive)", "Go runtime", "race detector (happens-before)", "real goroutines"},
 			"stubbed_components": []string{"the choice of which goroutine runs (seeded scheduler instead of the Go/OS scheduler)"},
 			"parallel_processes": parallel,
